@@ -38,6 +38,13 @@ WIDER = {"uint8": ["uint16", "uint32", "uint64", "float32"],
          "uint32": ["uint64"], "uint64": [], "float32": []}
 
 
+# thick slices: (shape, voxel size); the last computed scale has chunk sizes that differ between
+# axes and more than one chunk along the thick axis
+THICK = [([6, 6, 40], [1.0, 1.0, 4.0]), ([40, 6, 6], [4.0, 1.0, 1.0]), ([6, 40, 6], [1.0, 4.0, 1.0]),
+         ([5, 7, 44], [1.0, 1.0, 4.0]), ([7, 70, 5], [2.0, 8.0, 2.0]), ([72, 5, 6], [4.0, 1.0, 1.0]),
+         ([9, 5, 72], [2.0, 1.0, 4.0])]
+
+
 def conversion_classes(ctx):
     """Systematic list of conversion classes (dicts); the seeded rng only fills
     in sizes and layouts."""
@@ -49,7 +56,10 @@ def conversion_classes(ctx):
                 "dst_enc": "raw", "dst_type": "image", "dst_dtype": "-", "dst_sh": "keep",
                 "copy": "keep", "channels": 1, "method": "auto", "src_max": "all", "dst_max": "all",
                 "remote": False, "repeat": False, "iso": False, "quarters": False, "offset": 0,
-                "tgt": None, "stats": False}
+                "tgt": None, "stats": False,
+                "src_bs": "-", "dst_bs": "-",        # compressed_segmentation block sizes ("bs4", "bs16x8x4")
+                "shape": None, "voxel": None,        # fixed volume geometry (else drawn per family)
+                "kind": None, "triple": None, "shard_enc": None, "shard_index_enc": None}
         base.update(kw)
         out.append(base)
 
@@ -117,6 +127,53 @@ def conversion_classes(ctx):
     add(src_dtype="uint8", repeat=True, copy="copy")
     add(src_dtype="uint8", repeat=True, dst_sh="s110", iso=True)
     add(src_dtype="uint16", stats=True, dst_dtype="uint32", dst_sh="s110", iso=True)
+    # 9. same encoding NAME, other encoding PARAMETERS: compressed_segmentation block sizes
+    cs = dict(src_type="segmentation", src_enc="compressed_segmentation", dst_type="segmentation",
+              dst_enc="compressed_segmentation", method="majority", kind="blobs",
+              shape=[40, 18, 17], voxel=[1.0, 1.0, 1.0], tgt=16)
+    add(src_dtype="uint32", dst_bs="bs4", **cs)
+    add(src_dtype="uint32", dst_bs="bs16", **cs)
+    add(src_dtype="uint64", src_bs="bs4", **cs)                     # 4 -> default 8
+    add(src_dtype="uint32", src_bs="bs16", dst_bs="bs4", dst_dtype="uint64", **cs)
+    add(src_dtype="uint64", dst_bs="bs16x8x4", **cs)
+    add(src_dtype="uint32", src_bs="bs4", dst_bs="bs8x4x16", dst_sh="s110", **dict(cs, iso=True))
+    #    ... and sharding sub-encodings (same "raw" chunk encoding, other shard parameters)
+    add(src_dtype="uint8", src_sh="s110", iso=True, dst_sh="s110", shard_enc="raw", shard_index_enc="gzip",
+        shape=[40, 20, 18], voxel=[1.0, 1.0, 1.0], tgt=16, triple=[1, 0, 0])
+    # 10. sharded destinations with gzip sub-encodings, small bit triples, and chunk grids with
+    #     >= 2 chunks on at least two axes (the conversion loop does not visit the chunks in
+    #     compressed-Morton order there)
+    grids = [([40, 20, 20], 16), ([20, 36, 40], 16), ([34, 33, 10], 16), ([70, 66, 3], 32),
+             ([20, 20, 20], 8), ([36, 40, 33], 16)]
+    triples = [[0, 0, 0], [1, 0, 0], [0, 1, 0], [1, 1, 0], [0, 0, 1], [2, 0, 1], [1, 1, 1], [0, 2, 0]]
+    for n, tr in enumerate(triples):
+        shape, tgt = grids[n % len(grids)]
+        add(src_dtype=["uint8", "uint16", "uint8", "uint32"][n % 4], dst_sh="s110", iso=True, shape=shape,
+            voxel=[1.0, 1.0, 1.0], tgt=tgt, triple=tr, shard_enc="gzip",
+            shard_index_enc=["gzip", "raw"][n % 2], dst_dtype=["-", "uint32", "float32", "-"][n % 4])
+    add(src_dtype="uint8", src_sh="s110", dst_sh="s110", iso=True, shape=[40, 20, 20], voxel=[1.0, 1.0, 1.0],
+        tgt=16, triple=[0, 0, 0], shard_enc="gzip")                  # sharded source written by Vol/Compute
+    add(src_dtype="uint8", src_sh="s110", copy="copy", iso=True, shape=[20, 36, 40], voxel=[1.0, 1.0, 1.0],
+        tgt=16, triple=[1, 0, 0], shard_enc="gzip")
+    add(src_dtype="uint32", src_type="segmentation", dst_type="segmentation", dst_enc="compressed_segmentation",
+        dst_sh="s110", iso=True, shape=[40, 20, 20], voxel=[1.0, 1.0, 1.0], tgt=16, triple=[0, 0, 0],
+        shard_enc="gzip", kind="blobs", method="majority")
+    # 11. multi-channel label volumes with large uniform regions shared between the channels
+    mc = dict(src_type="segmentation", dst_type="segmentation", dst_enc="compressed_segmentation",
+              kind="blobs", voxel=[1.0, 1.0, 1.0], tgt=16, method="stride")
+    add(src_dtype="uint32", channels=2, shape=[40, 17, 16], **mc)
+    add(src_dtype="uint32", channels=2, dst_dtype="uint64", shape=[36, 18, 16], **mc)
+    add(src_dtype="uint32", channels=3, shape=[33, 16, 18], **mc)
+    add(src_dtype="uint8", channels=2, shape=[40, 16, 16], **mc)      # widened to uint32 by the generator
+    add(src_dtype="uint64", channels=2, src_enc="compressed_segmentation", dst_bs="bs4",
+        shape=[34, 17, 17], **mc)
+    add(src_dtype="uint32", channels=2, dst_sh="s110", iso=True, shape=[40, 20, 17], triple=[0, 0, 0],
+        shard_enc="gzip", **mc)
+    # 12. thick-slice sources: the extent along the thick axis exceeds that axis' chunk size at a
+    #     computed scale (every permutation of the thick axis)
+    for n, (shape, voxel) in enumerate(THICK):
+        add(src_dtype=["uint8", "uint16", "float32"][n % 3], shape=shape, voxel=voxel,
+            dst_dtype=["uint16", "-", "-"][n % 3], copy=["keep", "copy", "keep"][n % 3])
     return out
 
 
@@ -135,23 +192,27 @@ def prog_of(rng, k):
         if k["tgt"]:
             t = k["tgt"]
             shape = [rng.randint(2 * t + 1, 4 * t), rng.randint(3, 6), rng.randint(2, 4)]
+    if k["shape"]:
+        shape, voxel = list(k["shape"]), list(k["voxel"])
     if k["channels"] > 1:
         shape = shape + [k["channels"]]
     seg = k["src_type"] == "segmentation"
     vol = {"shape": shape, "voxel": voxel, "dtype": k["src_dtype"],
-           "kind": "labels" if seg else rng.choice(["noise", "ramp"]), "perfect": True,
+           "kind": k["kind"] or ("labels" if seg else rng.choice(["noise", "ramp"])), "perfect": True,
            "quarters": k["quarters"], "offset": k["offset"]}
     lv = pd.n_levels(shape, voxel, k["tgt"] or 64)
     if lv > 3:
         raise tlc.MachineryError("conversion class with more than 3 scales: %r" % (shape,))
     vol["nall"] = lv
     cmds = [C("GenInfo", "A", sh=k["src_sh"]),
-            C("GenScales", "A", src="A", type=k["src_type"], enc=k["src_enc"], max=k["src_max"]),
-            C("Vol", "A"), C("Compute", "A", m=k["method"])]
+            C("GenScales", "A", src="A", type=k["src_type"], enc=k["src_enc"], max=k["src_max"])]
+    if k["src_bs"] != "-":
+        cmds.append(C("Edit", "A", enc=k["src_bs"], sh="keep"))
+    cmds += [C("Vol", "A"), C("Compute", "A", m=k["method"])]
     if k["copy"] == "keep":
         cmds.append(C("GenScales", "B", src="A", type=k["dst_type"], enc=k["dst_enc"], max=k["dst_max"]))
-        if k["dst_dtype"] != "-" or k["dst_sh"] != "keep":
-            cmds.append(C("Edit", "B", type=k["dst_dtype"], sh=k["dst_sh"]))
+        if k["dst_dtype"] != "-" or k["dst_sh"] != "keep" or k["dst_bs"] != "-":
+            cmds.append(C("Edit", "B", type=k["dst_dtype"], sh=k["dst_sh"], enc=k["dst_bs"]))
     conv = C("Convert", "B", src="A", copy=k["copy"])
     cmds.append(conv)
     if k["repeat"]:
@@ -161,7 +222,10 @@ def prog_of(rng, k):
     return {"vol": vol, "cmds": cmds,
             "lay": {"A": rng.choice(list(pd.LAYOUTS)), "B": rng.choice(list(pd.LAYOUTS))},
             "explicit": True, "seed": rng.randrange(1 << 30), "tgt": k["tgt"],
-            "http": ["A"] if k["remote"] else [], "shard_enc": rng.choice(["gzip", "raw"]),
+            "http": ["A"] if k["remote"] else [],
+            "shard_enc": k["shard_enc"] or rng.choice(["gzip", "raw"]),
+            "shard_index_enc": k["shard_index_enc"] or k["shard_enc"] or rng.choice(["gzip", "raw"]),
+            "shard_triple": k["triple"],
             "docs_shflag": rng.random() < 0.5, "klass": k}
 
 
@@ -214,7 +278,7 @@ def run(ctx):
 
     # --- C->S: conversion classes --------------------------------------------
     classes = conversion_classes(ctx)
-    reps = ctx.pick(1, 14)
+    reps = ctx.pick(1, 10)
     progs = []
     for r in range(reps):
         for k in classes:
